@@ -12,6 +12,7 @@
 From Coq Require Import List NArith ZArith Bool Strings.Byte Strings.String Lia.
 Import ListNotations.
 Require Import Params Iauth IauthFacts Line Junk Mon01 Stray.
+Require ReloadEq.
 Local Open Scope list_scope.
 
 Definition is_timeout (argv : list str) : bool :=
@@ -279,7 +280,7 @@ Proof.
     + rewrite (lookup_remove_neq j id _ Hne) in Hl'. exists r'. split; assumption.
 Qed.
 
-(* reloads do not touch the table at all *)
+(* reloads do not touch the timers (pending requests only forget the refilled slots: ReloadEq.forget_fields) *)
 Theorem timer_never_rearmed_ev c s e j r' :
   NoDupIds (reqs s) -> match e with Ev _ argv => beq (cmdchar argv) x43 = false | Reload _ _ _ => True end ->
   lookup j (reqs (fst (step_ev c s e))) = Some r' -> timer r' = true ->
@@ -287,7 +288,8 @@ Theorem timer_never_rearmed_ev c s e j r' :
 Proof.
   destruct e as [id argv|svs rs t]; cbn [step_ev fst reqs].
   - apply timer_never_rearmed.
-  - intros _ _ H1 H2. exists r'. split; assumption.
+  - intros _ _ H1 H2. rewrite ReloadEq.lookup_map_forget in H1. destruct (lookup j (reqs s)) as [r|]; [|discriminate].
+    cbn [option_map] in H1. inversion H1; subst. exists r. split; [reflexivity|exact H2].
 Qed.
 
 (* ====================================================================================================== *)
@@ -361,7 +363,8 @@ Theorem armed_shrinks c s e :
 Proof.
   intros ND He id Hin.
   assert (NoDupIds (reqs (fst (step_ev c s e)))) as ND'.
-  { destruct e as [i argv|svs rs t]; cbn [step_ev fst reqs]; [apply step_nodup|]; exact ND. }
+  { destruct e as [i argv|svs rs t]; cbn [step_ev fst reqs]; [apply step_nodup; exact ND|].
+    unfold NoDupIds. rewrite ReloadEq.map_cid_forget. exact ND. }
   apply (armed_lookup _ id ND') in Hin. destruct Hin as [r' [H1 H2]].
   apply (armed_lookup s id ND). eapply timer_never_rearmed_ev; eassumption.
 Qed.
